@@ -1,0 +1,10 @@
+//go:build verif
+
+package rtsp
+
+import "bufio"
+
+// VerifReadInterleaved exposes readInterleaved (RTSP embedded binary data framing) to the verification harness.
+func VerifReadInterleaved(r *bufio.Reader) (isInterleaved bool, packet []byte, channel uint8, err error) {
+	return readInterleaved(r)
+}
